@@ -66,6 +66,8 @@ pub struct Cfg {
     pub queries: Vec<(usize, usize)>,
     /// points symbolic (else concrete-random)
     pub sym_points: bool,
+    /// every point label carries the same point value (one symbolic or concrete-random point under all labels)
+    pub share_point: bool,
     pub sym_rng: bool,
     pub rng_nonzero: bool,
     /// pre-seed the sponge with one symbolic absorb so that every squeezed challenge is a symbolic variable
@@ -87,6 +89,7 @@ impl Cfg {
             npoints: 1,
             queries: (0..n).map(|i| (i, 0)).collect(),
             sym_points: true,
+            share_point: false,
             sym_rng: true,
             rng_nonzero: false,
             sym_ch: true,
@@ -162,10 +165,17 @@ pub fn polys<S: Sch>(cfg: &Cfg, rng: &mut StdRng) -> (Vec<LabeledPolynomial<SF, 
 }
 
 pub fn points<S: Sch>(cfg: &Cfg, rng: &mut StdRng) -> Vec<(String, PointOf<S>)> {
+    let mut first: Option<Vec<SF>> = None;
     (0..cfg.npoints)
         .map(|k| {
             let d = S::point_dim(&cfg.sz);
-            let c: Vec<SF> = (0..d).map(|j| if cfg.sym_points { sym(&format!("z{}_{}", k, j)) } else { SF::rand(rng) }).collect();
+            let c: Vec<SF> = match (&first, cfg.share_point) {
+                (Some(f), true) => f.clone(),
+                _ => (0..d).map(|j| if cfg.sym_points { sym(&format!("z{}_{}", k, j)) } else { SF::rand(rng) }).collect(),
+            };
+            if first.is_none() {
+                first = Some(c.clone());
+            }
             (format!("z{}", k), S::point(&cfg.sz, c))
         })
         .collect()
